@@ -61,3 +61,22 @@ def run_behavioural(v, cases, name, nontrivial_min=2, shard_size=None, min_nontr
             name, v.cov['blocked'], n, v.notes['blocked_samples'][:3]))
     guard(nontriv >= min_nontrivial_ratio * (n - v.cov['blocked']), 'too few non-trivial programs in %s (%d of %d)' % (name, nontriv, n))
     return res
+
+
+def run_rejects(v, cases, name):
+    """cases the property says must be refused: an educe diagnostic is required (accepted / panicked / failing only later = violation)"""
+    if not cases:
+        return
+    res = rt_run(cases, run=False, name=name + 'rej', shard_size=1000)
+    v.add_states(cases)
+    for r in res:
+        v.cov['evaluations'] += 1
+        v.cov['traces_validated_against_impl'] += 1
+        if any(d['kind'] == 'educe' for d in r.errors()) and r.status != 'panic':
+            continue
+        if r.status == 'ok':
+            v.violation(r.case, 'the request must be refused with a diagnostic but was silently accepted')
+        elif r.status == 'panic':
+            v.violation(r.case, 'the macro panicked instead of reporting a diagnostic')
+        else:
+            v.violation(r.case, 'the request was not refused by educe; it only fails later in the compiler: %s' % '; '.join((d['code'] or '') + ' ' + d['msg'][:120] for d in r.errors()[:2]))
